@@ -19,9 +19,20 @@
      worker, fallback, priority normal); pending_boost => schedule_thread(hint = this worker,
      fallback, priority boost) or next_thrd = thrd; a popped handle whose task is active is
      re-scheduled with hint = this worker;
-   * execution_agent::do_yield (last_worker_thread_num := this worker) and do_resume ->
-     set_thread_state(pending, hint = last worker) incl. the helper task spawned when the target
-     is active (create_work on the target's scheduler, no hint);
+   * last_worker_thread_num_ as the code maintains it: size_t(-1) (= None) in a new thread_data;
+     the scheduling loop stores the local worker number right after the successful pending->active
+     transition, before it invokes the coroutine (own atomic step: pc [Start]; repair of the
+     first-phase wake-up race, see notes/design/C10.md); execution_agent::do_yield stores it again
+     BEFORE it switches out (own atomic step, the task is still active: pc [Leave]);
+     this_thread::suspend(state, nextid) (yield_to) does not go through do_yield and stores nothing;
+   * execution_agent::do_resume and the "set state for active thread" helper set_active_state
+     (set_thread_state.cpp) READ get_last_worker_thread_num() of the target for the hint (own atomic
+     step, ghost event [EWake]: pc [Res b hint]) and only then call set_thread_state(pending, hint):
+     target suspended => pending + schedule_thread(hint); target active => helper task
+     (create_work on the target's scheduler, no hint) that does the same again.  An execution_agent
+     is reachable only through this_thread::agent() of the running task itself
+     (thread_data_stackful::call installs it), so a task can be named in a resume only after its
+     coroutine has been invoked once (ghost [tk_agent], set by the [Start] step);
    * this_thread::yield_to (thread_helpers.cpp suspend(nextid)): same scheduler => next_thrd,
      other scheduler => schedule_thread(nextid, no hint) on the target's scheduler.
    The queue discipline is abstract (the oracle names the position that is popped), which covers
@@ -86,7 +97,8 @@ Record task := {
   tk_st : tstate;
   tk_last : option nat;      (* last_worker_thread_num_ (None = size_t(-1)) *)
   tk_phase : nat;
-  tk_home : nat              (* ghost: queue index computed from the hint / counter at creation *)
+  tk_home : nat;             (* ghost: queue index computed from the hint / counter at creation *)
+  tk_agent : bool            (* ghost: the coroutine has been invoked at least once (agent_ref may exist) *)
 }.
 
 Inductive ctx := CExt | CTask (a : nat).
@@ -96,7 +108,8 @@ Inductive event :=
   | EEnter (a ph p w by_ : nat)
   | ECall (lbl : nat) (c : ctx) (by_ : nat)
   | EYieldTo (b by_ : nat)
-  | EDivert (a p n0 n by_ : nat).      (* select_active_pu returned n <> n0 *)
+  | EDivert (a p n0 n by_ : nat)       (* select_active_pu returned n <> n0 *)
+  | EWake (b : nat) (l : option nat) (by_ : nat).   (* do_resume / set_active_state read last_worker_thread_num_ of b *)
 
 Record gstate := {
   tasks : list task;
@@ -107,18 +120,20 @@ Record gstate := {
 }.
 
 Inductive role := RExt | RWorker (p w : nat).
-Inductive pcs :=
-  | Idle
-  | Sel (p a : nat) (k : qkind) (n0 off : nat) (fb : bool)    (* inside select_active_pu, before try_lock #off *)
-  | Hold (p a : nat) (k : qkind) (n0 n : nat) (locked : bool). (* PU chosen; next: push + unlock *)
-Record local := { lrole : role; pc : pcs; cur : option nat; nxt : option nat }.
-
 Inductive source := SrcOwnH | SrcOwnN | SrcStealH (v : nat) | SrcStealN (v : nat) | SrcLow.
 Inductive action :=
   | ACall (lbl : nat)
   | ASpawn (p : nat) (pr : prio) (h : hint)
   | AYield | ABoost (direct : bool) | ASuspend | AEnd
   | AResume (b : nat) | AYieldTo (b : nat).
+Inductive pcs :=
+  | Idle
+  | Sel (p a : nat) (k : qkind) (n0 off : nat) (fb : bool)    (* inside select_active_pu, before try_lock #off *)
+  | Hold (p a : nat) (k : qkind) (n0 n : nat) (locked : bool)  (* PU chosen; next: push + unlock *)
+  | Start                                                      (* pending -> active done; next: store last worker, invoke *)
+  | Leave (x : action)                                         (* do_yield: last worker stored, next: switch out *)
+  | Res (b : nat) (h : hint).                                  (* last worker of b read, next: set_thread_state(b, pending, h) *)
+Record local := { lrole : role; pc : pcs; cur : option nat; nxt : option nat }.
 Inductive oracle := OPop (s : source) (idx : nat) | OAct (a : action).
 
 (* ---------------------------------------------------------------- primitives *)
@@ -145,16 +160,19 @@ Definition add_task (g : gstate) (tk : task) : gstate :=
   {| tasks := tasks g ++ [tk]; queues := queues g; rr := rr g; pulock := pulock g; glog := glog g |}.
 Definition get_task (g : gstate) (a : nat) : option task := nth_error (tasks g) a.
 
-(* only these three change a task; none touches tk_pool / tk_home *)
+(* only these four change a task; none touches tk_pool / tk_home *)
 Definition t_set (st : tstate) (tk : task) : task :=
   {| tk_pool := tk_pool tk; tk_prio := tk_prio tk; tk_st := st; tk_last := tk_last tk;
-     tk_phase := tk_phase tk; tk_home := tk_home tk |}.
-Definition t_leave (st : tstate) (w : nat) (tk : task) : task :=   (* do_yield: last worker, new state *)
-  {| tk_pool := tk_pool tk; tk_prio := tk_prio tk; tk_st := st; tk_last := Some w;
-     tk_phase := tk_phase tk; tk_home := tk_home tk |}.
-Definition t_enter (tk : task) : task :=
+     tk_phase := tk_phase tk; tk_home := tk_home tk; tk_agent := tk_agent tk |}.
+Definition t_store (w : nat) (tk : task) : task :=      (* set_last_worker_thread_num(w) *)
+  {| tk_pool := tk_pool tk; tk_prio := tk_prio tk; tk_st := tk_st tk; tk_last := Some w;
+     tk_phase := tk_phase tk; tk_home := tk_home tk; tk_agent := tk_agent tk |}.
+Definition t_enter (tk : task) : task :=                (* pending -> active (set_state_tagged) *)
   {| tk_pool := tk_pool tk; tk_prio := tk_prio tk; tk_st := TActive; tk_last := tk_last tk;
-     tk_phase := S (tk_phase tk); tk_home := tk_home tk |}.
+     tk_phase := S (tk_phase tk); tk_home := tk_home tk; tk_agent := tk_agent tk |}.
+Definition t_start (w : nat) (tk : task) : task :=      (* set_last_worker_thread_num(w); coroutine invoked *)
+  {| tk_pool := tk_pool tk; tk_prio := tk_prio tk; tk_st := tk_st tk; tk_last := Some w;
+     tk_phase := tk_phase tk; tk_home := tk_home tk; tk_agent := true |}.
 
 Fixpoint remove_nth {A} (l : list A) (i : nat) : list A :=
   match l, i with
@@ -209,20 +227,30 @@ Section WithCfg.
     let c := cfg p in
     let n0 := fst (base_queue (pW c) (rr g p) h) in
     let tk := {| tk_pool := p; tk_prio := stored_prio pr; tk_st := TPending; tk_last := None;
-                 tk_phase := 0; tk_home := n0 |} in
+                 tk_phase := 0; tk_home := n0; tk_agent := false |} in
     let g1 := log_ev (add_task g tk) (ESubmit a p pr h t) in
     begin_enqueue t g1 p a (qkind_of c pr) h false.
 
-  (* set_thread_state(b, pending, hint = last worker of b, retry_on_active = true) *)
-  Definition resume (t : nat) (g : gstate) (b : nat) : gstate * pcs :=
+  (* do_resume / set_active_state, first step: the hint is read from the target
+     (thread_schedule_hint{int16(get_last_worker_thread_num())}); possible only for a task whose
+     agent exists *)
+  Definition resume_read (t : nat) (g : gstate) (b : nat) : gstate * pcs :=
+    match get_task g b with
+    | None => (g, Idle)
+    | Some tk =>
+        if tk_agent tk then (log_ev g (EWake b (tk_last tk) t), Res b (last_hint (tk_last tk)))
+        else (g, Idle)
+    end.
+
+  (* second step: set_thread_state(b, pending, hint h, retry_on_active = true) *)
+  Definition resume (t : nat) (g : gstate) (b : nat) (h : hint) : gstate * pcs :=
     match get_task g b with
     | None => (g, Idle)
     | Some tk =>
         match tk_st tk with
         | TSuspended =>
             let g1 := upd_task g b (t_set TPending) in
-            begin_enqueue t g1 (tk_pool tk) b (qkind_of (cfg (tk_pool tk)) (tk_prio tk))
-                          (last_hint (tk_last tk)) false
+            begin_enqueue t g1 (tk_pool tk) b (qkind_of (cfg (tk_pool tk)) (tk_prio tk)) h false
         | TActive => spawn t g (tk_pool tk) PNormal HNone     (* "set state for active thread" helper *)
         | _ => (g, Idle)
         end
@@ -236,7 +264,7 @@ Section WithCfg.
         match tk_st tk with
         | TPending =>
             (log_ev (upd_task g b t_enter) (EEnter b (S (tk_phase tk)) p w t),
-             mk_local (lrole l) Idle (Some b) (nxt l))
+             mk_local (lrole l) Start (Some b) (nxt l))
         | TActive =>                                       (* "rescheduling" branch *)
             let '(g1, c1) := begin_enqueue t g p b (qkind_of (cfg p) (tk_prio tk)) (worker_hint w) true in
             (g1, mk_local (lrole l) c1 None (nxt l))
@@ -261,23 +289,23 @@ Section WithCfg.
     | ACall lbl => (log_ev g (ECall lbl (CTask a) t), l)
     | ASpawn p' pr h => let '(g1, c1) := spawn t g p' pr h in (g1, mk_local r c1 (cur l) (nxt l))
     | AYield =>
-        let g1 := upd_task g a (t_leave TPending w) in
+        let g1 := upd_task g a (t_set TPending) in
         let '(g2, c2) := begin_enqueue t g1 p a KN (worker_hint w) true in
         (g2, mk_local r c2 None (nxt l))
     | ABoost direct =>
-        let g1 := upd_task g a (t_leave TPending w) in
+        let g1 := upd_task g a (t_set TPending) in
         if direct then (g1, mk_local r Idle None (Some a))
         else let '(g2, c2) := begin_enqueue t g1 p a (qkind_of (cfg p) PBoost) (worker_hint w) true in
              (g2, mk_local r c2 None (nxt l))
-    | ASuspend => (upd_task g a (t_leave TSuspended w), mk_local r Idle None (nxt l))
+    | ASuspend => (upd_task g a (t_set TSuspended), mk_local r Idle None (nxt l))
     | AEnd => (upd_task g a (t_set TTerminated), mk_local r Idle None (nxt l))
-    | AResume b => let '(g1, c1) := resume t g b in (g1, mk_local r c1 (cur l) (nxt l))
-    | AYieldTo b =>
+    | AResume b => let '(g1, c1) := resume_read t g b in (g1, mk_local r c1 (cur l) (nxt l))
+    | AYieldTo b =>       (* this_thread::suspend(pending, nextid): self.yield directly, no do_yield *)
         match get_task g b with
         | None => (g, l)
         | Some tb =>
             if Nat.eqb (tk_pool tb) p then
-              let g1 := log_ev (upd_task g a (t_leave TPending w)) (EYieldTo b t) in
+              let g1 := log_ev (upd_task g a (t_set TPending)) (EYieldTo b t) in
               let '(g2, c2) := begin_enqueue t g1 p a KN (worker_hint w) true in
               (g2, mk_local r c2 None (Some b))
             else
@@ -290,9 +318,13 @@ Section WithCfg.
     match x with
     | ACall lbl => (log_ev g (ECall lbl CExt t), l)
     | ASpawn p' pr h => let '(g1, c1) := spawn t g p' pr h in (g1, mk_local (lrole l) c1 (cur l) (nxt l))
-    | AResume b => let '(g1, c1) := resume t g b in (g1, mk_local (lrole l) c1 (cur l) (nxt l))
+    | AResume b => let '(g1, c1) := resume_read t g b in (g1, mk_local (lrole l) c1 (cur l) (nxt l))
     | _ => (g, l)
     end.
+
+  (* the phase ends that go through execution_agent::do_yield (which stores the last worker first) *)
+  Definition is_do_yield (x : action) : bool :=
+    match x with AYield | ABoost _ | ASuspend => true | _ => false end.
 
   Definition pl_tstep (o : oracle) (t : nat) (g : gstate) (l : local) : gstate * local :=
     match pc l with
@@ -300,12 +332,31 @@ Section WithCfg.
         let '(g1, c1) := sel_step t g p a k n0 off fb in (g1, mk_local (lrole l) c1 (cur l) (nxt l))
     | Hold p a k n0 n locked =>
         (hold_step t g p a k n0 n locked, mk_local (lrole l) Idle (cur l) (nxt l))
+    | Start =>
+        match lrole l, cur l with
+        | RWorker p w, Some a => (upd_task g a (t_start w), mk_local (lrole l) Idle (cur l) (nxt l))
+        | _, _ => (g, mk_local (lrole l) Idle (cur l) (nxt l))
+        end
+    | Leave x =>
+        match lrole l, cur l with
+        | RWorker p w, Some a => act_task t g (mk_local (lrole l) Idle (cur l) (nxt l)) p w a x
+        | _, _ => (g, mk_local (lrole l) Idle (cur l) (nxt l))
+        end
+    | Res b h =>
+        let '(g1, c1) := resume t g b h in (g1, mk_local (lrole l) c1 (cur l) (nxt l))
     | Idle =>
         match lrole l with
         | RExt => match o with OAct x => act_ext t g l x | OPop _ _ => (g, l) end
         | RWorker p w =>
             match cur l with
-            | Some a => match o with OAct x => act_task t g l p w a x | OPop _ _ => (g, l) end
+            | Some a =>
+                match o with
+                | OAct x =>
+                    if is_do_yield x
+                    then (upd_task g a (t_store w), mk_local (lrole l) (Leave x) (cur l) (nxt l))
+                    else act_task t g l p w a x
+                | OPop _ _ => (g, l)
+                end
             | None =>
                 match nxt l with
                 | Some b => try_enter t g (mk_local (lrole l) Idle None None) p w b
